@@ -65,3 +65,23 @@ pub fn page_token_encode(value: usize) -> String {
 pub fn page_token_try_decode(encoded: &str) -> Option<usize> {
     super::page_token::PageToken::try_decode(encoded).map(|t| t.into())
 }
+
+/// A callback the verification harness can install; `gate` calls it with the
+/// name of the program point that is about to execute. The harness uses it to
+/// hold a thread at that point (flow control) or to record the point.
+type GateFn = dyn Fn(&'static str) + Send + Sync;
+
+static GATE: std::sync::Mutex<Option<std::sync::Arc<GateFn>>> = std::sync::Mutex::new(None);
+
+/// Installs (or removes) the gate callback.
+pub fn set_gate(f: Option<std::sync::Arc<GateFn>>) {
+    *GATE.lock().unwrap() = f;
+}
+
+/// Announces that the calling thread is about to execute `point`.
+pub fn gate(point: &'static str) {
+    let f = GATE.lock().unwrap().clone();
+    if let Some(f) = f {
+        f(point)
+    }
+}
